@@ -56,9 +56,10 @@ def find_strict_check(ctx, eff):
 
 
 class CheckHooks(Hooks):
-    def __init__(self):
+    def __init__(self, loop_func):
         self.loop = None
         self.appends = {}
+        self.loop_func = loop_func
 
     def tag(self, st, t):
         s2 = st.copy()
@@ -66,27 +67,48 @@ class CheckHooks(Hooks):
         return s2
 
     def on_loop_head(self, eng, fr, node, head):
-        if fr.depth == 0:
+        if fr.func is self.loop_func:
             head.tags = ()
         return head
 
     def on_loop(self, eng, fr, node, syms, entered, back, exits, breaks):
-        if fr.depth == 0 and self.loop is None:
+        if fr.func is self.loop_func and self.loop is None:
             self.loop = dict(node=node, syms=syms, entered=entered, back=back, exits=exits, breaks=breaks)
 
     def on_call(self, eng, fr, node, callee, args, kwargs, st):
-        if isinstance(callee, tuple) and callee[0] == "method" and callee[1] in ("append", "add") and fr.depth == 0:
+        if isinstance(callee, tuple) and callee[0] == "method" and callee[1] in ("append", "add") and fr.func is self.loop_func:
             s2 = self.tag(st, ("record", vkey(callee[2]), node))
             s2.epoch += 1
             return [(s2, Con(None))]
         return None
 
 
+def _has_for(f):
+    return any(isinstance(n, ast.For) for n in own_nodes(f.node))
+
+
+def find_loop_func(ctx, chk):
+    """The function holding the atom loop: the strict check itself, or a collector it calls directly
+    (``violations = _collect(mol)``) whose returned container decides the raise."""
+    if _has_for(chk):
+        return chk
+    cands = []
+    for s in ctx.cg.sites(chk):
+        for g in s.callees:
+            if g.cls is None and _has_for(g) and g not in cands and g.module is chk.module:
+                cands.append(g)
+    if len(cands) == 1:
+        return cands[0]
+    return chk
+
+
 def check_comparator(ctx, rep, chk, site):
-    h = CheckHooks()
+    loop_func = find_loop_func(ctx, chk)
+    h = CheckHooks(loop_func)
     eng = Engine(ctx, h)
     fr = eng.run_function(chk)
     lp = h.loop
+    chk_outer, chk = chk, loop_func
     if lp is None:
         rep.ob("Q1", False, chk.node, chk, witness="strict check does not iterate over the atoms")
         return
@@ -152,7 +174,7 @@ def check_comparator(ctx, rep, chk, site):
     rec_keys = {t[1] for st in paths for t in st.tags if t[0] == "record"}
     # after the loop the recorded container is the loop-mutated variable
     probs = []
-    raises = [(st, n, exc) for st, n, exc in fr.raises if getattr(n, "_sa_func", chk) is chk]
+    raises = [(st, n, exc) for st, n, exc in fr.raises if getattr(n, "_sa_func", chk_outer) is chk_outer]
     if not raises:
         probs.append("strict check never raises")
     for st, n, exc in raises:
@@ -162,7 +184,7 @@ def check_comparator(ctx, rep, chk, site):
         if not _truthy_container(st, False):
             probs.append("normal return is possible although a violation was recorded")
     # the container starts empty and is only appended to
-    rep.ob("Q1", not probs, raises[0][1] if raises else chk.node, chk, construct="raise decision",
+    rep.ob("Q1", not probs, raises[0][1] if raises else chk_outer.node, chk_outer, construct="raise decision",
            how="raises iff the list of recorded violations is non-empty", witness="; ".join(sorted(set(probs))) or None,
            nontrivial=True, key="raise-iff/" + ("ok" if not probs else sorted(set(probs))[0][:40]))
     inits = [n for n in own_nodes(chk.node) if isinstance(n, ast.Assign) and isinstance(n.value, (ast.List, ast.Call))]
